@@ -64,7 +64,11 @@ ASSUMPTIONS = [
     '(the driver evaluates these hypotheses of the theorems on every generated workbook)',
     'defined names target one cell or one rectangular area on one sheet (constants, formulas, multi-area and '
     'whole-row/column targets are outside the statement); a name for a cell that is not loaded (empty, or on an '
-    'ignored sheet) and hidden names are outside the statement',
+    'ignored sheet) and hidden names are outside the statement; names are workbook-level names of every shape '
+    'Excel accepts (first character a letter, "_" or "\\", then letters, digits, ".", "_", "?", "\\"; not a reference in A1 '
+    'or R1C1 notation; up to 255 characters; no two differing by case only). Sheet-local names (localSheetId) '
+    'and Excel\'s built-in _xlnm.* names are outside the domain: openpyxl turns the built-in ones into print '
+    'settings / filters and never hands them over as defined names, and the model has one flat name space',
     'date-styled numbers are serials >= 61 in the 1900 system with a time part that is a multiple of 1/8 day',
     'an empty <v/> with t="str" or t="e" (read as "no value" by openpyxl) is not generated',
     'placeholder cells that build_ranges adds for members of referenced areas are allowed by the statement as '
@@ -628,6 +632,14 @@ class OwnEval:
             return None
 
 
+def _exact(v):
+    """the harness's own values are compared only where double arithmetic is exact (DESIGN §3.1): every
+    intermediate result must be a double below 2^52; otherwise the value counts as unknown"""
+    if abs(v) > 2 ** 52 or Fraction(float(v)) != v:
+        raise Unknown()
+    return v
+
+
 class _Parser:
     def __init__(self, ev, toks, sheet):
         self.ev, self.toks, self.sheet, self.i = ev, toks, sheet, 0
@@ -651,14 +663,14 @@ class _Parser:
             op = self.peek()[1]
             self.i += 1
             w = self.mul()
-            v = v + w if op == '+' else v - w
+            v = _exact(v + w if op == '+' else v - w)
         return v
 
     def mul(self):
         v = self.atom()
         while self.lit('*'):
             self.i += 1
-            v = v * self.atom()
+            v = _exact(v * self.atom())
         return v
 
     def ref_or_area(self):
@@ -703,7 +715,7 @@ class _Parser:
             self.i += 1
             total = Fraction(0)
             while True:
-                total += self.sum_arg()
+                total = _exact(total + self.sum_arg())
                 if self.lit(','):
                     self.i += 1
                     continue
@@ -727,6 +739,12 @@ class _Parser:
             return self.ev.cell_value(x)
         raise Unknown()
 
+    def exact_sum(self, addrs):
+        total = Fraction(0)
+        for a in addrs:
+            total = _exact(total + self.ev.member_value(a))
+        return total
+
     def sum_arg(self):
         t = self.peek()
         if t is not None and t[0] == 'N':
@@ -737,14 +755,13 @@ class _Parser:
                     raise Unknown()
                 tg = self.ev.names[t[1]]
                 if len(tg) > 7:
-                    return sum((self.ev.member_value(a)
-                                for a in OwnEval.area(tg[1], tg[4], tg[6], tg[8], tg[10])), Fraction(0))
+                    return self.exact_sum(OwnEval.area(tg[1], tg[4], tg[6], tg[8], tg[10]))
                 return self.ev.cell_value('%s!%s%d' % (tg[1], col_name(tg[4]), tg[6]))
         if t is not None and t[0] in ('C', 'X'):
             j = self.i
             kind, x = self.ref_or_area()
             if kind == 'area':
-                return sum((self.ev.member_value(a) for a in x), Fraction(0))
+                return self.exact_sum(x)
             nxt = self.peek()
             if nxt is not None and nxt[0] == 'L' and nxt[1] in (',', ')'):
                 return self.ev.cell_value(x)
@@ -761,7 +778,34 @@ SPECIAL_SHEETS = ['A!B', 'US$', 'Cost$ 1', 'x!y z', "it's $!", '$A$1']       # '
 TEXTS = ['x', 'hello world', ' lead', 'trail ', 'a<b&c>d', '"q"', "it's", 'Ünï', '1.5', 'TRUE', '#N/A', 'A1',
          'line1 line2', '  ', '日本']
 ERRORS = ['#DIV/0!', '#N/A', '#VALUE!', '#REF!', '#NAME?', '#NUM!', '#NULL!']
-NAME_POOL = ['one', 'rng', 'total', 'rate', 'tbl', 'x_1', 'Αlpha', 'input.a', 'zz', 'col_b']
+NAME_POOL = ['one', 'rng', 'total', 'rate', 'tbl', 'x_1', 'Αlpha', 'input.a', 'zz', 'col_b',
+             # everything Excel allows: a leading underscore or backslash, dots, digits and '?' after the first
+             # character, mixed case, names that only look like references, function-like and word-like names
+             '_rate', '_block', '_', '__x', '_1', '\\rate', '\\', 'N\\x', 'a.b.c', 'x.y', 'Rate_2', 'myName',
+             'TaxRATE', 'A1B', 'R2D2x', 'AB12_', 'XFE1048577x', 'TRUE1', 'SUMX', 'Sheet1x', 'q?x', 'été', 'Ünï_1',
+             '日本', 'e1x', 'x' * 64, 'Long_' + 'n' * 200 + '.z']
+_NAME_FIRST = 'abcxyzABCXYZ_\\éΑ'
+_NAME_REST = _NAME_FIRST + '0123456789..__?'
+
+
+def valid_name(n):
+    """what Excel accepts as a defined name (and this harness can write): not a reference in A1 or R1C1 notation,
+    not a boolean word"""
+    import re
+    if not n or len(n) > 255 or not (n[0].isalpha() or n[0] in '_\\'):
+        return False
+    if re.fullmatch(r'[A-Za-z]{1,3}[0-9]+', n) or re.fullmatch(r'[Rr][0-9]*([Cc][0-9]*)?|[Cc][0-9]*', n):
+        return False
+    return n.upper() not in ('TRUE', 'FALSE')
+
+
+def gen_name(rng):
+    if rng.random() < 0.6:
+        return rng.choice(NAME_POOL)
+    while True:
+        n = rng.choice(_NAME_FIRST) + ''.join(rng.choice(_NAME_REST) for _ in range(rng.choice([0, 1, 2, 3, 5, 8, 20])))
+        if valid_name(n):
+            return n
 
 
 def L(s):
@@ -982,10 +1026,10 @@ class Gen:
         # defined names first (formulas may use them)
         used = set()
         for _ in range(rng.choice([0, 1, 2, 3, 4])):
-            nm = rng.choice(NAME_POOL)
-            if nm in used:
+            nm = gen_name(rng)
+            if nm.lower() in used:          # Excel's names are case-insensitive: no two that differ by case only
                 continue
-            used.add(nm)
+            used.add(nm.lower())
             k = rng.random()
             if k < 0.06:
                 wb['names'].append({'name': nm, 'hidden': False, 'target': ['R', '#REF!']})
@@ -1174,6 +1218,17 @@ def fixed_workbooks():
                    {'name': 'S2', 'cells': [_c(1, 1, ['P', [pfx_for("It's"), CELL(1, 1), L('+'), L('1')]], ['I', 9])]}],
         'names': [{'name': 'ap', 'hidden': False, 'target': ['T', "It's", True, True, 1, True, 1]},
                   {'name': 'apr', 'hidden': False, 'target': ['T', "It's", True, True, 1, True, 1, True, 1, True, 2]}]}))
+    # every shape of defined name Excel allows, for a cell and for an area, used in formulas
+    shapes = ['_rate', '\\rate', '_', '\\', 'a.b.c', 'Rate_2', 'myName', 'A1B', 'R2D2x', 'TRUE1', 'SUMX', 'q?x', 'été',
+              'x' * 64, 'Long_' + 'n' * 200 + '.z']
+    ncells = [_c(1, 1, None, ['I', 7]), _c(2, 1, None, ['F', '1/2']), _c(1, 2, None, ['I', 21]), _c(2, 2, None, ['R', 'txt'])]
+    ndefs = []
+    for i, nm in enumerate(shapes):
+        ncells.append(_c(3, i + 3, ['P', [['N', nm], L('*'), L('2')]], ['I', 42]))
+        ncells.append(_c(4, i + 3, ['P', [L('SUM'), L('('), ['N', nm + '.r'], L(')')]], ['F', '57/2']))
+        ndefs.append({'name': nm, 'hidden': False, 'target': ['T', 'Data', False, True, 1, True, 2]})
+        ndefs.append({'name': nm + '.r', 'hidden': False, 'target': ['T', 'Data', False, True, 1, True, 1, True, 2, True, 2]})
+    out.append(('name-shapes', {'sst': [], 'sheets': [{'name': 'Data', 'cells': ncells}], 'names': ndefs}))
     # D1102 (fixed): '!' in a sheet name; D0302 (fixed): '$' in a sheet name (both also in corpus/C11)
     for label, sn in (('D1102', 'A!B'), ('D0302', 'US$')):
         out.append((label, {
@@ -1544,7 +1599,8 @@ def run(ctx):
                 'b, e, date-styled, empty; formulas with every kind of cached result or none; shared masters with '
                 'members in rows, columns, rectangles and scattered, mixed $ references, cross-sheet references, '
                 'reference-like text literals; in half of the multi-sheet workbooks the same unqualified formula texts and '
-                'a same-text shared group on 2-4 sheets over different data), 0-4 defined names (cells, ranges, $/no $, quoted sheets, hidden, '
+                'a same-text shared group on 2-4 sheets over different data), 0-4 defined names of every shape Excel accepts (leading "_" or backslash, dots, digits, "?", mixed '
+                'case, unicode, reference look-alikes such as A1B, up to 255 characters; cells, ranges, $/no $, quoted sheets, hidden, '
                 '#REF!, empty or ignored targets), loaded once per subset of ignored sheets; compared with Spec '
                 '(cells, contents, names, cached values), with the Lean model (all dicts) and by evaluation with a '
                 'read_and_parse_dict model and the harness\'s own values. One evaluation = one (workbook, ignore '
